@@ -607,6 +607,16 @@ fn gen_doc_case(c: &mut Ctx, r: &mut Rng, tables: &[(&str, [Option<u16>; 256])])
         let res = guard(|| doc.extract_text(&[pn]));
         c.corr(req.clone(), show_res(&res));
         c.count(&format!("extract.page.{}", match &res { Ok(Ok(_)) => "ok", Ok(Err(_)) => "err", Err(_) => "panic" }));
+        // the same page from its content BYTES: Content::decode (C14's model) + the loop
+        if let Some(pid) = doc.get_pages().get(&pn) {
+            if let Ok(bytes) = doc.get_page_content(*pid) {
+                let mut req2 = format!("c16.extractc {}", spec.fonts.len());
+                for (n, d) in &spec.fonts { req2.push_str(&format!(" {} {}", hex_tok(n), show_obj(&Object::Dictionary(d.clone())))); }
+                req2.push_str(&format!(" {}", hex_tok(&bytes)));
+                c.corr(req2, show_res(&res));
+                c.count("extract.from_content_bytes");
+            }
+        }
         match (&res, &spec.expected) {
             (Err((site, msg)), _) => c.oracle_fail(&format!("panic@{}", site), msg, json!({"request": req})),
             (Ok(Ok(got)), Some(exp)) => { if got != exp { c.oracle_fail("extract:text", "extracted text differs from the text shown", json!({"request": req, "expected": ustr(exp), "got": ustr(got)})); } else { c.count("extract.oracle_equal"); } }
